@@ -293,6 +293,9 @@ func (j *Job) evaluateClusterStatus() {
 func (j *Job) start() error {
 	j.log.Info("starting")
 
+	// A checkpoint still pending from the previous assembly can never complete
+	j.snapshotStore.DiscardPendingCheckpoint()
+
 	// Get the job's current checkpoint which may be nil
 	ckpt := j.snapshotStore.CurrentCheckpoint()
 
